@@ -228,6 +228,25 @@ def boot(sim_locks: bool = False):
     return SIM
 
 
+def clear_kernel_cache() -> bool:
+    """Empty tensora's kernel cache, however it is implemented today.  False if no way was found (the
+    engines then rely on per-run fresh tensor names to get never-seen problems)."""
+    try:
+        from tensora.compile import _porcelain
+    except Exception:
+        return False
+    fn = getattr(_porcelain, "cachable_tensor_method", None)
+    for name in ("cache_clear", "clear"):
+        m = getattr(fn, name, None)
+        if callable(m):
+            try:
+                m()
+                return True
+            except Exception:
+                pass
+    return False
+
+
 def set_capacity(c: int) -> bool:
     """The capacity knob ("buggify"): initial length of every growable output array."""
     try:
